@@ -699,6 +699,144 @@ theorem para_cell_positive (p u v w : P3) (hdet : 0 < det3 u v w) :
   exact ⟨para_paired p u v w, hpl, para_nodesPlanar_cell p u v w, hst,
     fun tc => para_volume p u v w tc (ne_of_gt hdet), hpos.1, hpos.2.2⟩
 
+/-! ## decidable input conditions (evaluated by the driver on every 3-D cell), further clauses -/
+
+theorem edgePairedB_sound (cell : Cell3) (h : edgePairedB cell = true) : EdgePaired cell := by
+  simp only [edgePairedB, Bool.and_eq_true, List.all_eq_true, decide_eq_true_eq] at h
+  exact paired_of_perm cell h.1 (List.isPerm_iff.mp h.2)
+
+theorem planarStarB_sound (cell : Cell3) (h : planarStarB cell = true) : PlanarStar cell := by
+  simp only [planarStarB, Bool.and_eq_true, List.all_eq_true, decide_eq_true_eq] at h
+  intro f hf
+  exact ⟨(h f hf).1, fun e he => (h f hf).2 e he⟩
+
+theorem nodesPlanarB_sound (cell : Cell3) (h : nodesPlanarB cell = true) : NodesPlanar cell := by
+  simp only [nodesPlanarB, List.all_eq_true, decide_eq_true_eq] at h
+  exact h
+
+theorem starAboutB_sound (tc : P3) (cell : Cell3) (h : starAboutB tc cell = true) : StarAbout tc cell := by
+  simp only [starAboutB, List.all_eq_true, decide_eq_true_eq] at h
+  exact h
+
+theorem face_area_sq_aux (vs : List P3) (hN : (faceN vs).dot (faceN vs) ≠ 0)
+    (hpl : ∀ e ∈ cycEdges vs, 0 ≤ (subN (mean3 vs) e).dot (faceN vs) ∧
+      P3.smul ((faceN vs).dot (faceN vs)) (subN (mean3 vs) e) = P3.smul ((subN (mean3 vs) e).dot (faceN vs)) (faceN vs)) :
+    faceArea2 vs = (faceN vs).dot (faceN vs) := by
+  unfold faceArea2
+  rw [faceWSum_eq vs hpl]
+  field_simp
+
+/-- Everything at once for a cell that passes the decidable conditions the driver evaluates (`cellHypB`): -/
+theorem checked_cell_3d (cell : Cell3) (o : P3) (h : cellHypB cell = true) :
+    let tc := tempCenter3 cell
+    (∀ f ∈ cell, faceArea2 f.1 = (faceN f.1).dot (faceN f.1))
+    ∧ (∀ f ∈ cell, ∀ e ∈ cycEdges f.1, 0 ≤ tetVol tc f e) ∧ 0 < cellVol3 tc cell
+    ∧ (∀ f ∈ cell, 0 < f.2 * ((mean3 f.1).sub tc).dot (faceN f.1))
+    ∧ sum3 (fun f => P3.smul f.2 (faceN f.1)) cell = P3.zero
+    ∧ sumf (fun f => f.2 * ((faceCtr f.1).sub o).dot (faceN f.1)) cell = 3 * cellVol3 tc cell
+    ∧ sum3 (fun f => P3.smul (f.2 * ((faceCtr f.1).sub o).dot (faceN f.1)) ((faceCtr f.1).sub o)) cell
+        = P3.smul (4 * cellVol3 tc cell) ((cellCtr3 cell).sub o) := by
+  intro tc
+  simp only [cellHypB, Bool.and_eq_true, Bool.not_eq_true', List.isEmpty_eq_false_iff] at h
+  obtain ⟨⟨⟨⟨hne, hp⟩, hpl⟩, hnp⟩, hst⟩ := h
+  have hp := edgePairedB_sound cell hp
+  have hpl := planarStarB_sound cell hpl
+  have hnp := nodesPlanarB_sound cell hnp
+  have hst := starAboutB_sound _ cell hst
+  have hpos := star_cell_volume_pos cell tc hne hpl hnp hst
+  refine ⟨fun f hf => face_area_sq_aux f.1 (hpl f hf).1 (hpl f hf).2, hpos.1, hpos.2.2, hst,
+    closed_cell_3d cell hp, volume_identity_3d cell tc o hp hpl, ?_⟩
+  exact centroid_identity_3d_div cell o hp hpl hnp (ne_of_gt hpos.2.2)
+
+example : cellHypB (tetCell ⟨0, 0, 0⟩ ⟨1, 0, 0⟩ ⟨0, 1, 0⟩ ⟨0, 0, 1⟩) = true := by decide +kernel
+example : cellHypB (tensorCell3 0 1 0 2 1 (3 / 2)) = true := by decide +kernel
+
+
+theorem leftOf_moment (f : OFace) (w : OFace → Rat) (c : P2) (fs : List OFace) :
+    f.tx * (cellMomYW w c fs - cellAreaW w fs * f.a.y) - f.ty * (cellMomXW w c fs - cellAreaW w fs * f.a.x)
+      = sumf (fun g => w g * ((leftOf f c + (leftOf f g.a + leftOf f g.b)) / 3)) fs := by
+  induction fs with
+  | nil => simp [cellMomYW, cellMomXW, cellAreaW]
+  | cons g l ih =>
+    simp only [cellMomYW, cellMomXW, cellAreaW, sumf_cons, leftOf, OFace.mx, OFace.my] at ih ⊢
+    linear_combination ih
+
+/-- Outward orientation with respect to the COMPUTED cell centre: for a counter-clockwise convex cell the
+    face normal times the sign points away from the centroid the model returns, for every face. -/
+theorem convex_ccw_outward_centroid (fs : List OFace) (hne : fs ≠ []) (hs : ∀ f ∈ fs, f.s = 1)
+    (hconv : ∀ f ∈ fs, (∀ g ∈ fs, 0 ≤ leftOf f g.a ∧ 0 ≤ leftOf f g.b)
+                      ∧ ∃ g ∈ fs, 0 < leftOf f g.a + leftOf f g.b)
+    (ctr : P2) (hc : centroidOf (wOriented 1 (tempCenter fs)) (tempCenter fs) fs = some ctr) :
+    ∀ f ∈ fs, 0 < f.s * (f.nx 1 * (f.mx - ctr.x) + f.ny 1 * (f.my - ctr.y)) := by
+  obtain ⟨hsub, hV⟩ := convex_ccw_area_pos fs hne hs hconv
+  intro f hf
+  have hl : f.s * (f.nx 1 * (f.mx - ctr.x) + f.ny 1 * (f.my - ctr.y)) = leftOf f ctr := by
+    rw [hs f hf]; simp only [OFace.nx, OFace.ny, OFace.mx, OFace.my, OFace.tx, OFace.ty, leftOf]; ring
+  rw [hl]
+  have hmom := leftOf_moment f (wOriented 1 (tempCenter fs)) (tempCenter fs) fs
+  have hpos : 0 < sumf (fun g => wOriented 1 (tempCenter fs) g
+      * ((leftOf f (tempCenter fs) + (leftOf f g.a + leftOf f g.b)) / 3)) fs := by
+    apply sumf_pos hne
+    intro g hg
+    have hw := hsub g hg
+    have htc : 0 < leftOf f (tempCenter fs) := by
+      have := subZ_eq_leftOf f (tempCenter fs) (hs f hf)
+      have h2 := hsub f hf
+      simp only [wOriented] at h2
+      linarith
+    have hg2 := (hconv f hf).1 g hg
+    have : 0 < (leftOf f (tempCenter fs) + (leftOf f g.a + leftOf f g.b)) / 3 := by linarith [hg2.1, hg2.2]
+    exact mul_pos hw this
+  rw [← hmom] at hpos
+  unfold centroidOf at hc
+  split at hc
+  · cases hc
+  · injection hc with hc
+    subst hc
+    have hVV : 0 < cellAreaW (wOriented 1 (tempCenter fs)) fs := hV
+    have e : cellAreaW (wOriented 1 (tempCenter fs)) fs
+          * leftOf f ⟨cellMomXW (wOriented 1 (tempCenter fs)) (tempCenter fs) fs / cellAreaW (wOriented 1 (tempCenter fs)) fs,
+                      cellMomYW (wOriented 1 (tempCenter fs)) (tempCenter fs) fs / cellAreaW (wOriented 1 (tempCenter fs)) fs⟩
+        = f.tx * (cellMomYW (wOriented 1 (tempCenter fs)) (tempCenter fs) fs - cellAreaW (wOriented 1 (tempCenter fs)) fs * f.a.y)
+          - f.ty * (cellMomXW (wOriented 1 (tempCenter fs)) (tempCenter fs) fs - cellAreaW (wOriented 1 (tempCenter fs)) fs * f.a.x) := by
+      simp only [leftOf]; field_simp
+    rw [← e] at hpos
+    by_contra hle
+    have hle' := not_lt.mp hle
+    nlinarith
+
+/-- 1-D: positive cell volume for distinct end points. -/
+theorem line_volume_pos (ξ1 ξ2 : Rat) (hne : ξ1 ≠ ξ2) : 0 < absR (ξ1 - ξ2) := absR_pos (sub_ne_zero.mpr hne)
+
+/-- Sum of the cell volumes = boundary integral: for closed cells, if the list of all (cell, face) sides is a
+    permutation of the boundary sides `B` followed by interior faces seen from both sides with opposite signs,
+    then `2 Σ V = Σ_{B} sign · x_f·n_f` — the total measure depends on the boundary faces only, so moving
+    interior nodes (which keeps the cells closed) cannot change it. -/
+theorem volumes_sum_boundary (p : Rat) (cells : List (List OFace)) (c : List OFace → P2)
+    (hcl : ∀ fs ∈ cells, Closed fs) (B I : List OFace)
+    (hperm : (cells.flatMap id).Perm (B ++ I.flatMap (fun f => [f, ⟨f.a, f.b, -f.s⟩]))) :
+    2 * sumf (fun fs => cellArea p (c fs) fs) cells = sumf (fun f => f.s * (f.mx * f.nx p + f.my * f.ny p)) B := by
+  have h1 : ∀ fs ∈ cells, 2 * cellArea p (c fs) fs = sumf (fun f => f.s * (f.mx * f.nx p + f.my * f.ny p)) fs := by
+    intro fs hfs
+    rw [← area_identity p (c fs) ⟨0, 0⟩ fs (hcl fs hfs)]
+    apply sumf_congr; intro f _; ring
+  rw [← sumf_mul_left, sumf_congr h1]
+  have h2 := sumf_flatMap (fun f : OFace => f.s * (f.mx * f.nx p + f.my * f.ny p)) id cells
+  simp only [id] at h2
+  rw [← h2, sumf_perm _ hperm, sumf_append, sumf_flatMap]
+  have : sumf (fun a : OFace => sumf (fun f : OFace => f.s * (f.mx * f.nx p + f.my * f.ny p)) [a, ⟨a.a, a.b, -a.s⟩]) I = 0 := by
+    rw [← sumf_zero I]
+    apply sumf_congr; intro a _
+    simp only [sumf_cons, sumf_nil, OFace.mx, OFace.my, OFace.nx, OFace.ny, OFace.tx, OFace.ty]; ring
+  rw [this]; ring
+
+/-- two unit squares sharing a face: the sides are the six boundary sides plus the shared face seen twice -/
+example : ([tensorCell 0 1 0 1, tensorCell 1 2 0 1].flatMap id).Perm
+    ([⟨⟨0, 0⟩, ⟨0, 1⟩, -1⟩, ⟨⟨1, 0⟩, ⟨0, 0⟩, -1⟩, ⟨⟨1, 1⟩, ⟨0, 1⟩, 1⟩, ⟨⟨2, 0⟩, ⟨2, 1⟩, 1⟩, ⟨⟨2, 0⟩, ⟨1, 0⟩, -1⟩, ⟨⟨2, 1⟩, ⟨1, 1⟩, 1⟩]
+      ++ [(⟨⟨1, 0⟩, ⟨1, 1⟩, 1⟩ : OFace)].flatMap (fun f => [f, ⟨f.a, f.b, -f.s⟩])) := by
+  decide +kernel
+
+
 /-
 Not proved (checked by the oracle on the real code only):
 * that a face whose two sides disagree in the legacy path (non-convex cell) gets a meaningful normal — the code
